@@ -223,6 +223,16 @@ def run_case(case, ctx):
             break
         if not torch.equal(v, sp[i]):
             ctx.violation("input-mutated", "1-D call modified its argument", tags={"state": kind})
+        # the basis state handed over with another dtype (integer / single precision 0-1 entries are exact)
+        for alt in (sp[i].long(), sp[i].float()):
+            pz = ctx.lib("psi(1d, other dtype)", st.psi, alt, tags={"state": kind, "dtype": str(alt.dtype)})
+            qz = ctx.lib("probability(1d, other dtype)", st.probability, alt, tags={"state": kind, "dtype": str(alt.dtype)})
+            ctx.count("input_dtype_forms_checked")
+            zz = complex(float(pz.reshape(-1)[0]), float(pz.reshape(-1)[1]))
+            if pz.dtype != torch.double or abs(zz - psi_l[i]) > 1e-12 * abs(psi_l[i]) or abs(float(qz) - prob_l[i]) > 1e-12 * prob_l[i]:
+                ctx.violation("input-dtype-dependence", f"psi/probability of row {i} given as {alt.dtype}: {zz!r} / {float(qz)!r} "
+                              f"(dtype {pz.dtype}) vs {psi_l[i]!r} / {prob_l[i]!r}", tags={"state": kind, "dtype": str(alt.dtype)}, witness=wit)
+                break
 
     # results returned earlier must not be clobbered by later calls (no shared work buffers)
     ctx.count("held_results_rechecked", 4)
